@@ -31,7 +31,7 @@ def equinox_cases():
     eph, metas = [], []
     for y in (1600, 1900, 2023, 2024, 2399):
         for day in range(14, 28):
-            for lon, gmt in ((31.0, 2.0), (-77.0, -5.0), (139.7, 9.0)):
+            for lon, gmt in ((31.0, 2.0), (-77.0, -5.0), (139.7, 9.0), (177.5, 12.0), (-177.0, -12.0), (178.4, 12.0)):
                 d = datetime.date(y, 3, day).isoformat()
                 eph.append({"api": "k_ephemeris", "date": d, "gmt": gmt, "lat": 30.0, "lon": lon, "elev": 0.0})
                 metas.append((d, lon))
